@@ -1,7 +1,7 @@
 (* C03 — a variable always holds a value of its declared type. Pinned.
    [store_ok G s]: every slot carries the declared kind and a magnitude inside that kind's range. *)
 From Coq Require Import ZArith List Bool.
-From TP Require Import Model.StCore Model.StTyping Proofs.StProofs.
+From TP Require Import Model.StCore Model.StTyping Proofs.StProofs Proofs.StArrays.
 Import ListNotations.
 Open Scope Z_scope.
 
@@ -38,3 +38,25 @@ Print Assumptions assignment_keeps_type.
 Print Assumptions for_control_keeps_type.
 Print Assumptions external_write_keeps_type.
 Print Assumptions uncoerced_assignment_refuted.
+
+(* ---- arrays: storage_typed covers programs with element assignments (SAssignIdx); the element write path on its own ---- *)
+(* the slot an element assignment computes is declared with the element kind, so the stored value conforms *)
+Theorem element_write_keeps_type : forall o strict, o_coerce_write o = true \/ strict = true -> forall G s b lo n k iv x v,
+  store_ok G s = true -> arr_ok G b n k = true -> idx_slot b lo n iv = Ok x ->
+  (exists k' z, v = VInt k' z /\ in_range k' z = true /\ (strict = true -> k' = k)) ->
+  benign (write o s x v) (fun s' => store_ok G s' = true).
+Proof. exact StArrays.element_write_keeps_type. Qed.
+(* a T-typed element assignment, executed by the interpreter: every variable and every element still holds its declared type *)
+Theorem element_assignment_keeps_type : forall o strict,
+  o_neg_checked o = true -> o_for_checked o = true -> o_coerce_write o = true \/ strict = true -> o_case_unsigned o = true ->
+  forall G fuel depth s b lo n ki i e il, store_ok G s = true -> tstmt strict G il (SAssignIdx b lo n ki i e) = true ->
+  benign (exec o fuel depth s (SAssignIdx b lo n ki i e)) (fun r => store_ok G (fst r) = true /\ snd r = GNormal).
+Proof. exact StArrays.array_write_sound. Qed.
+(* the slots of a declared array hold the element kind, in range *)
+Theorem array_slots_typed : forall G s b n k j, store_ok G s = true -> arr_ok G b n k = true -> (j < n)%nat ->
+  exists z, nth_error s (b + j) = Some (VInt k z) /\ in_range k z = true.
+Proof. exact arr_ok_slot. Qed.
+
+Print Assumptions element_write_keeps_type.
+Print Assumptions element_assignment_keeps_type.
+Print Assumptions array_slots_typed.
